@@ -99,7 +99,7 @@ KANI_HARNESSES = {
                              bounded="one slot per side, whole-second offsets below 2^16", default_tag="C17.safety"),
     "k_sim_peek_timer_2": H("maybenot-simulator", "verif_proofs", "k_sim_peek_timer_2", "queue_peek::peek_scheduled_internal_timer", SIMQ,
                             bounded="one slot per side, whole-second offsets below 2^16", default_tag="C18.safety"),
-    "k_sim_peek_action": H("maybenot-simulator", "verif_proofs", "k_sim_peek_action", "queue_peek::peek_scheduled_action", SIMQ, tier="thorough",
+    "k_sim_peek_action": H("maybenot-simulator", "verif_proofs", "k_sim_peek_action", "queue_peek::peek_scheduled_action", SIMQ, tier="quick",
                            bounded="two client slots and one server slot, whole-second offsets below 2^16", default_tag="C17.safety"),
     "k_sim_peek_timer": H("maybenot-simulator", "verif_proofs", "k_sim_peek_timer", "queue_peek::peek_scheduled_internal_timer", SIMQ, tier="thorough",
                           bounded="two client slots and one server slot, whole-second offsets below 2^16", default_tag="C18.safety"),
